@@ -604,7 +604,7 @@ def _monitor_c04(case, out):
 
 
 C04_THEOREMS = ["fwd_first_window", "fwd_windows_tile", "rev_first_window", "rev_windows_tile", "rev_offset_brute_force"]
-C02_THEOREMS = []
+C02_THEOREMS = ["loadbuf_total", "nextchar_total", "nextchar_no_fault", "seebuf_total", "inmaps_agree"]
 C07_THEOREMS = ["findSubseq_absent", "findSubseq_out_of_range", "fetchSubseq_absent", "fetchSubseq_start_out_of_range", "findSubseq_cases",
                 "lands_on_start_line", "lands_on_start_residue", "lands_on_start_none", "bplrpl_sound_partial", "bplrpl_unsound_single_line", "bplrpl_unsound_at_init"]
 
